@@ -30,7 +30,13 @@ impl Check for C09 {
         let mut csrc = Src::new(&cbytes);
         let opts = ModGenOpts { max_dim: 300, multi_group: 40, ..Default::default() };
         let fixed = choice.starts_with(b"\xffRAW");
-        let (case, file) = if fixed { fixed_modular_file(choice.get(4).copied().unwrap_or(2)) } else { gen_modular_file(&mut src, &opts) };
+        let _ = &opts;
+        let (case, file) = if fixed {
+            let (m, f) = fixed_modular_file(choice.get(4).copied().unwrap_or(2));
+            (AnyCase { bytes: m.bytes, classes: m.classes, layouts: vec![m.layout], header_len: m.header_len, kind: "modular", size: (m.ih.width, m.ih.height), orientation: 1, has_parallel_work: false, has_neighbourhood_feature: false, desc: String::new() }, f)
+        } else {
+            gen_any_file(&mut src, &AnyOpts::default())
+        };
         let cuts = if fixed { (1..file.file.len()).collect() } else { gen_cuts(file.file.len(), &file.marks, &mut csrc) };
         let mut o = Outcome::pass();
         let inside = cuts.iter().any(|c| !file.marks.contains(c));
@@ -41,10 +47,10 @@ impl Check for C09 {
         }
         o.case_hash = h | 1;
         o.classes = file.classes.clone();
-        o.classes.extend(case.classes.iter().filter(|c| c.starts_with("toc:") || c.starts_with("multi")).cloned());
+        o.classes.extend(case.classes.iter().filter(|c| c.starts_with("toc:") || c.starts_with("multi") || c.starts_with("image:")).cloned());
         o.classes.push(format!("chunks:{}", match cuts.len() + 1 { 1 => "1", 2..=4 => "2-4", 5..=32 => "5-32", _ => ">32" }));
         if describe {
-            o.describe = Some(json!({"file_len": file.file.len(), "container": file.container, "classes": o.classes, "cuts": if cuts.len() > 20 { json!(format!("{} cuts", cuts.len())) } else { json!(cuts) }, "image": crate::checks::c03::describe_case(&case)}));
+            o.describe = Some(json!({"file_len": file.file.len(), "container": file.container, "classes": o.classes, "cuts": if cuts.len() > 20 { json!(format!("{} cuts", cuts.len())) } else { json!(cuts) }, "image": case.desc}));
         }
         let dopts = DecodeOpts::default();
         let whole = match open(&file.file, &dopts) {
@@ -71,12 +77,12 @@ impl Check for C09 {
             return o;
         }
         // the reference's own expectations on the whole-buffer result
-        if !whole.loading_done || whole.num_keyframes != 1 {
+        if !whole.loading_done || whole.num_keyframes < 1 {
             o.verdict = Verdict::Fail { sig: "whole-incomplete".into(), detail: format!("loading_done={} keyframes={}", whole.loading_done, whole.num_keyframes) };
             return o;
         }
-        if whole.frame_offsets.first().copied().flatten() != Some(case.layout.frame_start) {
-            o.verdict = Verdict::Fail { sig: "frame-offset".into(), detail: format!("frame_offset(0) = {:?}, frame starts at codestream byte {}", whole.frame_offsets.first(), case.layout.frame_start) };
+        if whole.frame_offsets.first().copied().flatten() != Some(case.layouts[0].frame_start) {
+            o.verdict = Verdict::Fail { sig: "frame-offset".into(), detail: format!("frame_offset(0) = {:?}, frame starts at codestream byte {}", whole.frame_offsets.first(), case.layouts[0].frame_start) };
             return o;
         }
         if let Some(x) = &file.xml {
